@@ -101,12 +101,13 @@ def check(chk, repo, tier):
                 q = quote(s)
                 toks = tokenise(q)
             except (PRaise, Exception) as exc:  # noqa: BLE001
-                chk.ob("C06.roundtrip", f"class string {s!r}", False,
-                       f"quoting / lexing raised {exc}", EF, witness=repr(s))
+                chk.ob("C06.roundtrip", "quote∘lex", False,
+                       f"quoting / lexing {s!r} raised {exc}", EF,
+                       witness=repr(s))
                 continue
             kinds = [t.d.get("name").name for t in toks]
             if kinds != ["STRING"]:
-                chk.ob("C06.reader-one-literal", f"class string {s!r}", False,
+                chk.ob("C06.reader-one-literal", "quoted text is one literal", False,
                        f"the quoted text {q!r} is lexed as {kinds}, not as "
                        "one string literal: the reader's terminator/escape "
                        "table disagrees with the writer's", LF,
@@ -122,9 +123,9 @@ def check(chk, repo, tier):
                     text = gen.transpile_token(toks[0], 0, dict_compress=dc)
                     val = literal_value(text)
                 except (GeneratorRaised, ValueError, SyntaxError) as exc:
-                    chk.ob("C06.roundtrip", f"class string {s!r}", False,
-                           f"transpiling / evaluating the literal failed: "
-                           f"{exc}", TF, witness=repr(s))
+                    chk.ob("C06.roundtrip", "escape∘python", False,
+                           f"transpiling / evaluating the literal for {s!r} "
+                           f"failed: {exc}", TF, witness=repr(s))
                     continue
                 cons = ("quote∘lex∘decompress∘escape∘python" if dc
                         else "quote∘lex∘escape∘python")
